@@ -1,0 +1,8 @@
+//go:build !verif
+// +build !verif
+
+package store
+
+// verifPoint marks a synchronisation boundary for the /verif harness.
+// In the normal build it is an empty function (inlined away).
+func verifPoint(name string) {}
